@@ -32,6 +32,9 @@ type SymStr struct {
 	From int       // byte offset into Str (value is Str[From:])
 	Tag  string    // for opaque strings: a label
 	Line bool      // Str is a line variable constrained only by regular-language memberships
+	// Bytes: a string of concrete length whose bytes are terms (7-bit ASCII by construction, see
+	// vBytesStr): the representation for code that inspects a string byte by byte
+	Bytes []*sym.Term
 }
 
 type Struct struct{ F []Value }
@@ -103,6 +106,7 @@ type MapIter struct {
 type StrIter struct {
 	S   string
 	Pos int
+	B   []*sym.Term // byte-vector string
 }
 
 // ErrObj is the dynamic value of opaque errors produced by stubs and by the
